@@ -6,6 +6,7 @@ import atexit
 import datetime
 import logging
 import os
+import re
 from typing import Any
 from typing import Dict
 from typing import Optional
@@ -82,6 +83,15 @@ class GoogleLogger(object):
         severity: Optional[int] = logging.DEBUG,
         spanId: Optional[str] = None,
     ):
+        # a text message is sanitized like a dictionary when it is a JSON object
+        if isinstance(message, str):
+            try:
+                parsed = json.loads(message)
+                if isinstance(parsed, dict):
+                    message = parsed
+            except ValueError:
+                pass
+
         # supress duplicate warnings
         if severity == LEVELS.WARNING:  # warnings
             hashed = hash(str(message))
@@ -117,6 +127,9 @@ class GoogleLogger(object):
             structured_log.update(message)  # type:ignore
             return log_it(structured_log)
         else:
+            if isinstance(message, str) and "://" in message:
+                # credentials in the user-info part of a URL, as the stream formatter does
+                message = re.sub(r":\/\/(.*?)\@", "://<redacted>", message)
             structured_log["message"] = message
             return log_it(structured_log)
 
